@@ -275,7 +275,9 @@ fn item_at(g: &mut Gen, cfg: &ItemCfg, depth: usize, budget: &mut usize) -> Item
         }
         _ => {
             if !cfg.tags { return Item::Null }
-            let t = g.u64();
+            // boundary-dense numbers, and the registered tags that software singles out (self-described CBOR 55799,
+            // date/time, bignums, embedded CBOR, typed arrays, ...)
+            let t = if g.chance(80) { *g.pick(&[0u64, 1, 2, 3, 4, 5, 21, 22, 23, 24, 32, 33, 34, 35, 36, 37, 40, 41, 64, 87, 100, 256, 258, 1040, 55799, 55799, 55798, 55800, 15309736]) } else { g.u64() };
             let w = width(g, cfg, t);
             Item::Tag(t, w, Box::new(item_at(g, cfg, depth + 1, budget)))
         }
